@@ -97,6 +97,7 @@ func (dm *DagModifier) WriteAt(b []byte, offset int64) (int, error) {
 		// If we would overwrite the previous write
 		if len(b) >= dm.wrBuf.Len() {
 			dm.wrBuf.Reset()
+			dm.curWrOff = dm.writeStart
 		} else {
 			// Shorter than the pending write: overwrite its first bytes
 			// in place instead of appending after it.
@@ -120,6 +121,8 @@ func (dm *DagModifier) WriteAt(b []byte, offset int64) (int, error) {
 			return 0, err
 		}
 		dm.writeStart = uint64(offset)
+		// keep the cursor on the new write position, Write advances it
+		dm.curWrOff = uint64(offset)
 	}
 
 	return dm.Write(b)
